@@ -207,6 +207,132 @@ func corrProbe(r *Rng, which string) (line, got string) {
 			got = "fault"
 		}
 		return "model tree" + sb.String(), got
+	case "lowest":
+		n := r.Range(0, 4)
+		ps := make(clip.Paths64, n)
+		for i := range ps {
+			ps[i] = corrPath(r)
+		}
+		idx, neg := clip.VGetLowestPathInfo(ps)
+		return fmt.Sprintf("model lowest %s", pathsStr(ps)), fmt.Sprintf("%d %s", idx, bs(neg))
+	case "scan":
+		// ascending lists with repetitions (as reset() builds them), occasionally unsorted
+		n := r.Range(0, 7)
+		l := make([]int64, n)
+		v := int64(r.Range(-3, 3))
+		for i := range l {
+			v += int64(r.Range(0, 2))
+			l[i] = v
+		}
+		if r.Chance(0.1) && n > 1 {
+			l[0], l[n-1] = l[n-1], l[0]
+		}
+		js := func(x []int64) string { return strings.Trim(fmt.Sprint(x), "[]") }
+		if r.Bool() {
+			y := int64(r.Range(-4, 12))
+			return strings.TrimSpace(fmt.Sprintf("model scanins %d %s", y, js(l))), js(clip.VInsertScanline(l, y))
+		}
+		y, rest, ok := clip.VPopScanline(l)
+		got := "none"
+		if ok {
+			got = strings.TrimSpace(fmt.Sprintf("%d | %s", y, js(rest)))
+		}
+		return strings.TrimSpace("model scanpop " + js(l)), got
+	case "pipop":
+		p := corrPath(r)
+		q := P{X: int64(r.Intn(4)), Y: int64(r.Intn(4))}
+		if len(p) > 0 && p[0].X > 10 {
+			q.X *= 1 << 20
+			q.Y *= 1 << 20
+		}
+		if len(p) == 0 {
+			return "model pipop 0 0 0", "2"
+		}
+		return fmt.Sprintf("model pipop %d %d %s", q.X, q.Y, pathStr(p)), fmt.Sprint(clip.VPointInOpPolygon(q, p))
+	case "rectline":
+		// a rectangle on a coarse grid and polylines whose vertices fall inside, outside, on its
+		// sides and on its corners
+		sc := []int64{1, 2, 10, 1 << 20}[r.Intn(4)]
+		rect := clip.NewRect64(1*sc, 1*sc, int64(r.Range(2, 4))*sc, int64(r.Range(2, 4))*sc)
+		n := r.Range(0, 3)
+		ps := make(clip.Paths64, n)
+		for i := range ps {
+			m := r.Range(0, 7)
+			for k := 0; k < m; k++ {
+				ps[i] = append(ps[i], P{X: int64(r.Range(0, 5)) * sc, Y: int64(r.Range(0, 5)) * sc})
+			}
+			if r.Chance(0.3) {
+				for k := range ps[i] { // off-grid vertices: intersection points are rounded
+					ps[i][k].X += int64(r.Range(-1, 1)) * (sc / 2)
+					ps[i][k].Y += int64(r.Range(-1, 1)) * (sc / 3)
+				}
+			}
+		}
+		got := ""
+		if f := safeCall(func() { got = showPaths(clip.RectClipLinesPaths64(rect, ps)) }); f != "" {
+			got = "fault"
+		}
+		f4 := clip.VRectFields(rect)
+		return fmt.Sprintf("model rectline %d %d %d %d %s", f4[0], f4[1], f4[2], f4[3], pathsStr(ps)), got
+	case "rectpoly":
+		sc := []int64{1, 2, 10, 1 << 20}[r.Intn(4)]
+		rect := clip.NewRect64(1*sc, 1*sc, int64(r.Range(2, 4))*sc, int64(r.Range(2, 4))*sc)
+		var p clip.Path64
+		for k := r.Range(0, 9); k > 0; k-- {
+			p = append(p, P{X: int64(r.Range(0, 5)) * sc, Y: int64(r.Range(0, 5)) * sc})
+		}
+		if r.Chance(0.3) {
+			for k := range p {
+				p[k].X += int64(r.Range(-1, 1)) * (sc / 2)
+				p[k].Y += int64(r.Range(-1, 1)) * (sc / 3)
+			}
+		}
+		if r.Chance(0.15) {
+			p = genOrbit(r, clip.VRectFields(rect)) // laps around the rectangle
+		}
+		rings, ok := clip.VRectExecuteInternal(rect, p)
+		got := "fault"
+		if ok {
+			got = showPaths(rings)
+		}
+		f4 := clip.VRectFields(rect)
+		if len(p) == 0 {
+			return fmt.Sprintf("model rectpoly %d %d %d %d 0", f4[0], f4[1], f4[2], f4[3]), got
+		}
+		return fmt.Sprintf("model rectpoly %d %d %d %d %s", f4[0], f4[1], f4[2], f4[3], pathStr(p)), got
+	case "offplan":
+		n := r.Range(0, 3)
+		ps := make(clip.Paths64, n)
+		for i := range ps {
+			ps[i] = corrPath(r)
+		}
+		delta := []float64{0, 0.25, -0.25, 0.49, 0.5, -0.5, 3, -3, 7.5}[r.Intn(9)]
+		jt, et := r.Intn(4), r.Intn(5)
+		rev, pres := r.Chance(0.3), r.Chance(0.3)
+		traceMu.Lock()
+		evs := clip.VTraceRun(func() {
+			safeCall(func() {
+				co := clip.NewClipperOffset(2, 0, pres, rev)
+				co.AddPaths(ps, clip.JoinType(jt), clip.EndType(et))
+				var sol clip.Paths64
+				co.Execute64(delta, &sol)
+			})
+		})
+		traceMu.Unlock()
+		var parts []string
+		for _, e := range evs {
+			switch e.Kind {
+			case "offsetPassThrough":
+				parts = append(parts, "P")
+			case "offsetGroup":
+				parts = append(parts, fmt.Sprintf("G %d %d %d %d %d", math.Float64bits(e.Vals[0]), int(e.Vals[1]), int(e.Vals[2]), int(e.Vals[3]), int(e.Vals[4])))
+			case "offsetPath":
+				parts = append(parts, fmt.Sprintf("S %d %d %s", int(e.Vals[0]), int(e.Vals[1]), showPath(clip.Path64(e.Pts))))
+			case "offsetUnion":
+				parts = append(parts, fmt.Sprintf("U %d %d %d", int(e.Vals[0]), int(e.Vals[1]), int(e.Vals[2])))
+			}
+		}
+		return strings.TrimSpace(fmt.Sprintf("model offplan %d %d %d %d %d %s", math.Float64bits(delta), jt, et, b2i(rev), b2i(pres), pathsStr(ps))), strings.Join(parts, " ; ")
 	case "strip":
 		p := corrPath(r)
 		closed := r.Bool()
@@ -219,6 +345,26 @@ func corrProbe(r *Rng, which string) (line, got string) {
 			got = "fault"
 		}
 		return fmt.Sprintf("model mink %d %d %s %s", b2i(isSum), b2i(closed), pathStr(pat), pathStr(path)), got
+	case "windopen":
+		fr := r.Intn(4)
+		ct := r.Range(1, 3)
+		e2 := clip.VEdge{WindDx: 1 - 2*r.Intn(2), PolyType: clip.PathType(r.Intn(2)), WindCount: r.Range(-3, 3), WindCount2: r.Range(-3, 3)}
+		hot2 := r.Bool()
+		if r.Chance(0.6) {
+			hot2 = clip.VIsContributingClosed(clip.FillRule(fr), clip.ClipType(ct), e2.PolyType, e2.WindCount, e2.WindCount2)
+		}
+		openHot, openLeft := r.Bool(), r.Bool()
+		got := ""
+		if f := safeCall(func() {
+			after, ok := clip.VIntersectOpen(clip.ClipType(ct), clip.FillRule(fr), openHot, e2, hot2, openLeft)
+			got = bs(after != openHot)
+			if !ok {
+				got += " failed"
+			}
+		}); f != "" {
+			got = "fault " + f
+		}
+		return fmt.Sprintf("model windopen %d %d %d %d %d %d %d %d", ct, fr, b2i(hot2), e2.WindDx, e2.WindCount, e2.WindCount2, int(e2.PolyType), 0), got
 	case "windc", "windx", "windd":
 		fr := r.Intn(4)
 		edge := func() clip.VEdge {
@@ -417,7 +563,7 @@ func corrProbe(r *Rng, which string) (line, got string) {
 }
 
 var genProbes = []string{"triSign", "multiplyUInt64", "productsAreEqual", "isCollinear", "CrossProduct", "dotProduct64", "segsIntersect", "checkPrecision", "IsOdd", "ptsReallyClose", "isContributingClosed", "isContributingOpen", "getLocation", "getEdgesForPt", "isHeadingClockwise", "headingClockwise", "getAdjacentLocation", "areOpposites", "hasHorzOverlap", "hasVertOverlap", "isClockwise", "getSegmentIntersection", "getSegmentIntersectPt", "rectMethods", "getBounds", "GetBounds64", "Area64", "PerpendicDistFromLineSqr64"}
-var modelProbes = []string{"trim", "simp64", "pip", "strip", "mink", "vertex", "clean", "build", "tree", "tree"}
+var modelProbes = []string{"offplan", "rectpoly", "rectline", "pipop", "scan", "lowest", "trim", "simp64", "pip", "strip", "mink", "vertex", "clean", "build", "tree", "tree"}
 
 func corrStage(name string, probes []string, quick, thorough int, rule string) {
 	stages[name] = func(ctx *Ctx, cnt func(q, t int) int, replay string) Result {
@@ -448,6 +594,6 @@ func corrStage(name string, probes []string, quick, thorough int, rule string) {
 
 func init() {
 	corrStage("gen-corr", genProbes, 56000, 2800000, "translator validation: every generated function (Gen.*) is evaluated by the Lean oracle on operand-value inputs and compared with the real function called in-process (sign only for float64 cross / dot products, bit patterns for Area64 and PerpendicDistFromLineSqr64); non-trivial = any probe with a non-empty argument list")
-	corrStage("wind-corr", []string{"windc", "windx", "windd", "windc", "windd"}, 60000, 2500000, "correspondence of the winding-count bookkeeping model (Model.Wind) with the real setWindCountForClosedPathEdge / setWindCountForOpenPathEdge / intersectEdges (counts, hotness afterwards and output records created, for hot / cold / front / back / shared-record combinations) run on synthetic active-edge lists (verif hook): 0-5 edges left of the new edge, subject / clip / open edges, all four fill rules, counts either produced by the real insertion (consistent states) or arbitrary in -3..3; resulting counts compared exactly")
-	corrStage("models-corr", modelProbes, 80000, 3000000, "function-level correspondence of the hand models (TrimCollinear64, SimplifyPath64, PointInPolygon, StripDuplicates, minkowskiInternal, addPathsToVertexList [vertex ring, flags, local minima], cleanCollinear's removal loop and buildPath on synthetic output rings, buildTree on synthetic tables of output records with nested / disjoint rectangles, arbitrary owner links and splits lists): random paths of 0-8 vertices on 2-4 wide grids (forcing duplicates, collinear runs, wrap-around cases) at three magnitudes; outputs compared exactly; the clean probe is skipped when fixSelfIntersects (not modelled) would act")
+	corrStage("wind-corr", []string{"windc", "windx", "windd", "windc", "windd", "windopen"}, 60000, 2500000, "correspondence of the winding-count bookkeeping model (Model.Wind) with the real setWindCountForClosedPathEdge / setWindCountForOpenPathEdge / intersectEdges (counts, hotness afterwards and output records created, for hot / cold / front / back / shared-record combinations) run on synthetic active-edge lists (verif hook): 0-5 edges left of the new edge, subject / clip / open edges, all four fill rules, counts either produced by the real insertion (consistent states) or arbitrary in -3..3; resulting counts compared exactly")
+	corrStage("models-corr", modelProbes, 140000, 4000000, "function-level correspondence of the hand models (TrimCollinear64, SimplifyPath64, PointInPolygon, StripDuplicates, minkowskiInternal, addPathsToVertexList [vertex ring, flags, local minima], cleanCollinear's removal loop and buildPath on synthetic output rings, buildTree on synthetic tables of output records with nested / disjoint rectangles, arbitrary owner links and splits lists, pointInOpPolygon on synthetic rings, Group.GetLowestPathInfo, insertScanline / popScanline, RectClipLinesPaths64 [whole line machine] the raw rings of RectClip64.executeInternal [polygon state machine before checkEdges], and the decision events of ClipperOffset.Execute64 [group delta, per-path dispatch, final union]): random paths of 0-8 vertices on 2-4 wide grids (forcing duplicates, collinear runs, wrap-around cases) at three magnitudes; outputs compared exactly; the clean probe is skipped when fixSelfIntersects (not modelled) would act")
 }
